@@ -349,6 +349,7 @@ class BaseCtx:
 
     def __init__(self):
         self.obs: List[Any] = []
+        self.details: List[Any] = []
         self.notes: Dict[str, Any] = {}
         self.var_order: List[str] = []
 
@@ -356,6 +357,10 @@ class BaseCtx:
         """record an observable of the run (must be plain data; used by the differential validation
         and as evidence sample)"""
         self.obs.append(v if len(v) != 1 else v[0])
+
+    def detail(self, *v):
+        """extra information about the run that is not part of the compared observation (e.g. native-only facts)"""
+        self.details.append(v if len(v) != 1 else v[0])
 
     def note(self, k, v=1):
         """increment a non-triviality counter"""
@@ -734,7 +739,7 @@ def run_concrete(fn, values, reset=None) -> Dict[str, Any]:
     for k, t in v.items():
         if is_sym(t):
             raise SymxError("concrete run produced a symbolic verdict")
-    return dict(aborted=False, verdict={k: bool(t) for k, t in v.items()}, obs=ctx.obs, exception=None, used=ctx.used)
+    return dict(aborted=False, verdict={k: bool(t) for k, t in v.items()}, obs=ctx.obs + ([{"details": ctx.details}] if ctx.details else []), exception=None, used=ctx.used)
 
 
 def run_pinned(fn, values, reset=None) -> Dict[str, Any]:
